@@ -99,6 +99,11 @@ def check(ctx):
         # (c) guarded align
         for a in al:
             gs = [ast.unparse(t) + ":" + lab for t, lab in g.guards_of(a)]
+            allowed = ("self._ignore(self.__data):F", "not self._ignore(self.__data):T", "self.ignored:F", "not self.ignored:T", "size != self.__recordsz:T")
+            extra = [x for x in gs if x not in allowed]
+            ctx.ob("C13.b", f"RecordTensor.{pname}.setter: whenever the size changes and storage exists, the ring is aligned before it is resized", not extra,
+                   "" if not extra else f"align(0) is additionally conditioned on {extra}: on the other resizes (e.g. growing) the zero slots are inserted into a rotated ring "
+                   f"and the history moves away from its steps-before-present positions", P.loc(s, a.ast), None)
             ok = any(x in ("self._ignore(self.__data):F", "not self._ignore(self.__data):T", "self.ignored:F", "not self.ignored:T") for x in gs)
             ctx.ob("C13.c/G12", f"RecordTensor.{pname}.setter: align() only on initialised storage", ok,
                    "guarded like RecordTensor.reconstrain" if ok else
